@@ -1814,7 +1814,13 @@ func (s *session) judge(primary bool) *verdict {
 					break
 				}
 			}
-			if e.anchor >= 0 {
+			// The completeness clause is conditional: "when every packet reaches the recorder
+			// or can be recovered from the cache ... no frame after the first keyframe is
+			// missing".  A track that has lost a packet for good does not meet the condition
+			// (the recorder may sacrifice complete frames behind a hole it cannot know to be
+			// permanent: thorough seed 8, session 3698), so nothing is REQUIRED of it; what it
+			// does record is still judged by every other clause.
+			if e.anchor >= 0 && !e.lossy {
 				for i := e.anchor; i < len(t.frames); i++ {
 					f := &t.frames[i]
 					if t.complete(f) && f.p0 > lastLost {
@@ -1830,7 +1836,7 @@ func (s *session) judge(primary bool) *verdict {
 			// audio only: everything from the first packet the recorder saw
 			for i := range t.frames {
 				f := &t.frames[i]
-				if f.p0 >= t.firstEvent && t.complete(f) && f.p0 > lastLost {
+				if f.p0 >= t.firstEvent && t.complete(f) && f.p0 > lastLost && !e.lossy {
 					e.required[i] = true
 				}
 			}
